@@ -13,10 +13,16 @@ REQUIRES = ["Model.Router", "Model.StreamDecor", "Spec.C11"]
 PROOF_FILES = ["Proof/C11.v"]
 MANIFEST = {
     "text": "Coq theorems over all decorator trees (CopyStreamResult / StreamTagger / TimestampingStreamResult / "
-            "StreamFailFast / StreamToQueue, any depth and fan-out) and all call histories, by induction on the tree "
+            "StreamFailFast / StreamToQueue, any depth and fan-out) and all call histories (any sequence of "
+            "startTestRun / status / stopTestRun: no run, several runs through the same decorators, repeated or "
+            "unmatched start/stop, status outside a run; the caller passing the same set object again, changed in "
+            "place in between or not), by induction on the tree "
             "over an explicit store of mutable tag sets: the imperative model (references, allocation, sinks that keep "
-            "the reference they were given, tags read at the end of the run) refines the pure per-sink statement - "
-            "what a sink logs at a call is a function of the decorators on its path and of that call alone; the "
+            "the reference they were given, tags read at the end of the run, the caller's own objects right after the "
+            "call) refines the pure per-sink statement - "
+            "what a sink logs at a call is a function of the decorators on its path and of that call BY VALUE alone "
+            "(C11_value_only: not of which object carries the tags, its past or its future); every startTestRun / "
+            "stopTestRun is handed on every time (C11_start_stop_every_time); the "
             "caller's cells are never written; the set of statuses StreamFailFast reacts to is read from the live "
             "code (Gen/Failfast.v) and proved to be {fail, uxsuccess}. The hand-written Gallina model is tied to /repo "
             "on every run by differential execution of model and implementation inside coqc; the oracle for a failing "
@@ -31,18 +37,30 @@ MANIFEST = {
 }
 RULE = ("decorator trees over recording sinks and StreamFailFast leaves: every tree of depth <= 2 and fan-out <= 2 "
         "(720 shapes, tagger parameters drawn per tree), random trees to depth 3 / fan-out 3 (<= 12 leaves); histories "
-        "of startTestRun / status / stopTestRun with the caller's tag argument None, a frozenset or one of the "
-        "caller's own set objects (re-used across calls), ids, statuses, "
+        "of 0..3 runs (startTestRun / status calls / stopTestRun) through the same decorator tree, with repeated or "
+        "missing startTestRun / stopTestRun and status calls before, between and after runs; the caller's tag "
+        "argument None, a frozenset or one of the caller's 1..4 own set objects: the same object as at the previous "
+        "call (half of the calls; in two thirds of those the caller has changed it in place in between - one tag "
+        "added or discarded, or refilled), another object holding an equal value, or an unrelated one; the keyword "
+        "dict one persistent object refilled per call (40%) or a new one; ids, statuses, "
         "routes, file chunks, timestamps supplied or not; non-trivial = at least two leaves or depth >= 2, and at "
         "least one status call; distinct = distinct JSON")
 TRUSTED = ["doubles.StreamResult records the arguments it receives by reference; queue.Queue is FIFO",
-           "the harness's drain loop for StreamToQueue (status -> status(**dict), startTestRun/stopTestRun handed on)"]
+           "the harness's drain loop for StreamToQueue (status -> status(**dict), startTestRun/stopTestRun handed on)",
+           "the driver's identity test (`is`) that decides whether a logged tag object is one of the caller's own sets "
+           "(read right after the call) or not (read at the end of the run)"]
 ASSUMPTIONS = ["tags, ids, file names, mime types, supplied timestamps and route segments are mapped to small numbers "
                "by fixed injective tables; tags are numbers below 6",
-               "the caller passes test_tags as None, a frozenset or a set (the quantifier of the property)"]
+               "the caller passes test_tags as None, a frozenset or a set (the quantifier of the property)",
+               "whether a sink is handed the caller's own set object or an equal copy is left open (the statement "
+               "speaks of what a target receives): a caller-owned object in a sink's log is compared by its value "
+               "right after the call",
+               "file_bytes, timestamps, ids and route codes are immutable objects: re-using them cannot be observed"]
 EXPLANATION = ("Theorems in coq/Props/C11.v over all decorator trees and histories; correspondence: every call of a "
-               "generated history is made on the root of a real decorator tree; per call the entries every leaf newly "
-               "logged (tag sets read at the END of the run through the references the sinks kept), whether the call "
+               "generated history (several runs, repeated stops, the caller's set objects re-used and edited in place "
+               "between calls) is made on the root of ONE real decorator tree; per call the entries every leaf newly "
+               "logged (tag sets read at the END of the run through the references the sinks kept; one of the caller's "
+               "own objects right after the call), whether the call "
                "raised, and the contents of the caller's own set objects right after the call are compared with "
                "coq/Model/StreamDecor.v and judged by Spec.C11.spec_okb.")
 
@@ -179,7 +197,7 @@ def build(t, leaves, variant=0):
     raise ValueError(t)
 
 
-def call_status(root, ev, caller_sets):
+def call_status(root, ev, caller_sets, kwobj=None):
     tg = ev["tags"]
     if tg is None:
         tags = None
@@ -207,14 +225,24 @@ def call_status(root, ev, caller_sets):
         for k in list(kw):
             if (k in defaults and kw[k] is defaults[k]) or (k not in defaults and kw[k] is None):
                 del kw[k]
-    root.status(*pos, **kw)
+    if kwobj is None:
+        root.status(*pos, **kw)
+        return
+    # the caller keeps ONE keyword dict for the whole history and refills it for every call
+    kwobj.clear()
+    kwobj.update(kw)
+    root.status(*pos, **kwobj)
+    if len(kwobj) != len(kw) or any(kwobj.get(k, kwobj) is not v for k, v in kw.items()):
+        raise AssertionError("the caller's keyword dict was changed by status()")
 
 
 def drive(case):
     leaves = []
     root = build(case["tree"], leaves, case.get("variant", 0))
     caller_sets = [tagset(ts) for ts in case["caller"]]
+    kwobj = {} if case.get("kwreuse") else None
     marks = []
+    at_call = {}            # (leaf, index in its log) -> the caller's own set as it was right after the call
     for op in case["ops"]:
         raised = False
         try:
@@ -223,26 +251,47 @@ def drive(case):
             elif op[0] == "T":
                 root.stopTestRun()
             elif op[0] == "E":
-                call_status(root, op[1], caller_sets)
+                call_status(root, op[1], caller_sets, kwobj)
             else:                                   # the caller changes its own set in place
                 s = caller_sets[op[1]]
                 s.clear()
                 s.update(tagset(op[2]))
         except Exception:
             raised = True
-        marks.append((raised, [len(x._events) if kind == "K" else len(x) for kind, x in leaves],
-                      [canon_tags(s) for s in caller_sets]))
+        lens = [len(x._events) if kind == "K" else len(x) for kind, x in leaves]
+        # a sink that was handed one of the caller's OWN set objects: what that object holds later is the
+        # caller's doing, so it is read now; every other logged object is read at the end of the run
+        before = marks[-1][1] if marks else [0] * len(leaves)
+        for j, ((kind, x), b, a) in enumerate(zip(leaves, before, lens)):
+            if kind != "K":
+                continue
+            for n in range(b, a):
+                c = x._events[n]
+                if c[0] == "status" and any(c.test_tags is s for s in caller_sets):
+                    at_call[(j, n)] = canon_tags(c.test_tags)
+        marks.append((raised, lens, [canon_tags(s) for s in caller_sets]))
     # everything the sinks logged is read now, at the end of the run, through the references they kept
     steps = []
     before = [0] * len(leaves)
     for raised, lens, snap in marks:
         new = []
-        for (kind, x), b, a in zip(leaves, before, lens):
+        for j, ((kind, x), b, a) in enumerate(zip(leaves, before, lens)):
             if kind == "F":
                 new.append(["X"] * (a - b))
-            else:
-                new.append([("S" if c[0] == "startTestRun" else "T" if c[0] == "stopTestRun" else canon_event(c))
-                            for c in x._events[b:a]])
+                continue
+            ent = []
+            for n in range(b, a):
+                c = x._events[n]
+                if c[0] == "startTestRun":
+                    ent.append("S")
+                elif c[0] == "stopTestRun":
+                    ent.append("T")
+                else:
+                    e = canon_event(c)
+                    if (j, n) in at_call:
+                        e["tags"] = at_call[(j, n)]
+                    ent.append(e)
+            new.append(ent)
         steps.append([raised, new, snap])
         before = lens
     return {"steps": steps}
@@ -419,19 +468,72 @@ def rand_event(rng, ncaller):
     return e
 
 
+def rand_skeleton(rng):
+    """startTestRun / stopTestRun calls of a history with slots ("E") for status calls: 0..3 runs through the
+    same decorators, now and then a repeated or missing start / stop, slots inside, between and outside runs"""
+    nr = rng.choice([0, 1, 1, 1, 2, 2, 3])
+    sk = []
+    if nr == 0 or rng.random() < 0.2:
+        sk.append("E")                                   # status calls before any run
+    for _ in range(nr):
+        if rng.random() < 0.9:
+            sk.append("S")
+            if rng.random() < 0.12:
+                sk.append("S")
+        sk.append("E")
+        if rng.random() < 0.9:
+            sk.append("T")
+            if rng.random() < 0.2:
+                sk.append("T")                           # stopTestRun repeated
+        if rng.random() < 0.2:
+            sk.append("E")                               # status calls between / after runs
+    return sk
+
+
 def rand_history(rng, n_events):
-    ncaller = rng.choice([1, 2, 2, 3])
+    ncaller = rng.choice([1, 2, 2, 3, 4])
     caller = [sorted(rng.sample(range(NTAGS), rng.choice([0, 1, 2, 2, 3]))) for _ in range(ncaller)]
-    ops = []
-    if rng.random() < 0.7:
-        ops.append(["S"])
+    cur = [list(c) for c in caller]
+
+    def mutate(l):
+        if rng.random() < 0.75:                          # add or discard one tag, as a runner tracking tags does
+            t = rng.randrange(NTAGS)
+            v = sorted(set(cur[l]) ^ {t})
+        else:
+            v = sorted(rng.sample(range(NTAGS), rng.choice([0, 1, 2, 3])))
+        cur[l] = v
+        return ["M", l, list(v)]
+
+    sk = rand_skeleton(rng)
+    slots = [k for k, x in enumerate(sk) if x == "E"]
+    fill_ = {k: 0 for k in slots}
     for _ in range(n_events):
-        ops.append(["E", rand_event(rng, ncaller)])
-        # No ["M", ..] (the caller changing its own set between calls) is generated although model and driver
-        # support it: whether a sink behind CopyStreamResult sees the caller's LATER changes is not pinned by the
-        # statement (a defensive copy would be as good), so such inputs could only produce false alarms.
-    if rng.random() < 0.7:
-        ops.append(["T"])
+        fill_[rng.choice(slots)] += 1
+    ops = []
+    prev = None                                          # the tag argument of the previous status call
+    for k, x in enumerate(sk):
+        if x != "E":
+            ops.append([x])
+            if rng.random() < 0.08:
+                ops.append(mutate(rng.randrange(ncaller)))
+            continue
+        for _ in range(fill_[k]):
+            e = rand_event(rng, ncaller)
+            if prev is not None and rng.random() < 0.5:
+                # the same argument again: for a set the SAME object, changed by the caller in between or not
+                e["tags"] = prev
+                if prev is not None and prev[0] == "l" and rng.random() < 0.65:
+                    ops.append(mutate(prev[1]))
+            elif rng.random() < 0.12:
+                ops.append(mutate(rng.randrange(ncaller)))
+            elif e["tags"] is not None and e["tags"][0] == "l" and rng.random() < 0.3:
+                # a different object holding what the previous call's argument held / holds
+                src = None if prev is None else (cur[prev[1]] if prev[0] == "l" else prev[1])
+                if src is not None and e["tags"] != prev:
+                    cur[e["tags"][1]] = list(src)
+                    ops.append(["M", e["tags"][1], list(src)])
+            ops.append(["E", e])
+            prev = e["tags"]
     return caller, ops
 
 
@@ -476,6 +578,27 @@ def fixed_cases():
         {"tree": ["C", []], "caller": [[1]], "ops": [["S"], ["E", ev(["l", 0])], ["T"]]},
         {"tree": ["G", [1], [], []], "caller": [[1]], "ops": [["E", ev(["l", 0])]]},
         {"tree": ["K"], "caller": [[1]], "ops": [["E", ev(["l", 0])]]},
+        # several runs through the same decorators, stopTestRun repeated, status calls outside a run
+        {"tree": ["C", [["K"], ["G", [1], [], [["Z", ["Q", 0, ["K"]]], ["K"]]], ["Q", 2, ["K"]]]], "caller": [],
+         "ops": [["S"], ["E", ev()], ["T"], ["S"], ["E", ev(st=5)], ["T"], ["S"], ["T"]]},
+        {"tree": ["Q", 0, ["K"]], "caller": [], "ops": [["S"], ["E", ev()], ["T"], ["T"]]},
+        {"tree": ["Z", ["Q", 1, ["C", [["K"], ["F"]]]]], "caller": [],
+         "ops": [["E", ev(st=5)], ["T"], ["S"], ["S"], ["E", ev(st=6)], ["T"], ["E", ev()], ["T"]]},
+        # one running "current tags" set: the same object with every call, edited by the caller in between
+        {"tree": ["C", [["K"], ["G", [0], [], [["K"], ["G", [], [1], [["Z", ["K"]]]]]], ["G", [2], [0], [["K"]]]]],
+         "caller": [[]], "kwreuse": True,
+         "ops": [["S"], ["E", ev(["l", 0], st=1)], ["M", 0, [1]], ["E", ev(["l", 0])], ["E", ev(["l", 0], st=1)],
+                 ["M", 0, [1, 3]], ["E", ev(["l", 0], st=6)], ["M", 0, [3]], ["E", ev(["l", 0], st=1)], ["M", 0, []],
+                 ["E", ev(["l", 0])], ["M", 0, [0]], ["E", ev(["l", 0], st=0)], ["T"]]},
+        # equal values in different objects, the same object with different values, None and frozensets between
+        {"tree": ["G", [4], [], [["K"], ["G", [], [4], [["K"]]]]], "caller": [[1], [1], [2]],
+         "ops": [["E", ev(["l", 0])], ["E", ev(["l", 1])], ["M", 1, [2]], ["E", ev(["l", 1])], ["E", ev(["l", 2])],
+                 ["E", ev(None)], ["M", 2, [1]], ["E", ev(["l", 2])], ["E", ev(["f", [1]])], ["M", 0, [5]],
+                 ["E", ev(["l", 0])]]},
+        # the caller empties / refills its set; a tagger whose result is empty
+        {"tree": ["G", [], [1], [["K"]]], "caller": [[1]],
+         "ops": [["E", ev(["l", 0])], ["M", 0, []], ["E", ev(["l", 0])], ["M", 0, [1, 2]], ["E", ev(["l", 0])],
+                 ["M", 0, [1]], ["E", ev(["l", 0])]]},
     ]
 
 
@@ -485,8 +608,9 @@ def generate(rng, tier):
     per_shape = 2 if tier == "quick" else 12
     for s in shapes:
         for j in range(per_shape):
-            caller, ops = rand_history(rng, rng.choice([1, 2, 3]) if tier == "quick" else rng.choice([2, 3, 5]))
-            cases.append({"tree": fill(s, rng), "caller": caller, "ops": ops, "variant": rng.randrange(6)})
+            caller, ops = rand_history(rng, rng.choice([1, 2, 3, 4]) if tier == "quick" else rng.choice([2, 3, 5, 7]))
+            cases.append({"tree": fill(s, rng), "caller": caller, "ops": ops, "variant": rng.randrange(6),
+                          "kwreuse": rng.random() < 0.4})
     n_rand = 1300 if tier == "quick" else 40000
     k = 0
     while k < n_rand:
@@ -494,8 +618,9 @@ def generate(rng, tier):
         if t[0] in "KF" or n_leaves(t) > 12:
             continue
         k += 1
-        caller, ops = rand_history(rng, rng.choice([1, 2, 3, 4, 6]))
-        cases.append({"tree": t, "caller": caller, "ops": ops, "variant": rng.randrange(6)})
+        caller, ops = rand_history(rng, rng.choice([1, 2, 3, 4, 6, 8]))
+        cases.append({"tree": t, "caller": caller, "ops": ops, "variant": rng.randrange(6),
+                      "kwreuse": rng.random() < 0.4})
     return cases
 
 
@@ -562,12 +687,16 @@ def shrink(case):
                 yield dict(case, ops=ops[:i] + [["E", dict(e, tags=["f", case["caller"][e["tags"][1]]])]] + ops[i + 1:])
     if case.get("variant"):
         yield dict(case, variant=0)
+    if case.get("kwreuse"):
+        yield dict(case, kwreuse=False)
 
 
 def distribution(cases):
     d = {"depth": {}, "leaves": {}, "tag_arg": {"none": 0, "frozenset": 0, "set": 0}, "status_calls": 0,
          "caller_mutations": 0, "with_nested_taggers": 0, "with_failfast": 0, "with_queue": 0, "with_stamp": 0,
-         "timestamp_supplied": 0, "timestamp_missing": 0}
+         "timestamp_supplied": 0, "timestamp_missing": 0, "stop_calls_per_history": {}, "start_calls_per_history": {},
+         "status_outside_run": 0, "same_set_object_again": 0, "same_set_object_again_changed_between": 0,
+         "equal_value_other_object": 0, "kwargs_dict_reused": 0}
     import json
     for c in cases:
         t = c["tree"]
@@ -579,7 +708,33 @@ def distribution(cases):
         d["with_failfast"] += '"F"' in s
         d["with_queue"] += '"Q"' in s
         d["with_stamp"] += '"Z"' in s
+        ns = sum(op[0] == "S" for op in c["ops"])
+        nt = sum(op[0] == "T" for op in c["ops"])
+        d["start_calls_per_history"][ns] = d["start_calls_per_history"].get(ns, 0) + 1
+        d["stop_calls_per_history"][nt] = d["stop_calls_per_history"].get(nt, 0) + 1
+        d["kwargs_dict_reused"] += bool(c.get("kwreuse"))
+        cur = [list(x) for x in c["caller"]]
+        prev, prev_val, changed, inrun = None, None, False, False
         for op in c["ops"]:
+            if op[0] == "S":
+                inrun = True
+            elif op[0] == "T":
+                inrun = False
+            elif op[0] == "M":
+                cur[op[1]] = list(op[2])
+                if prev is not None and prev[0] == "l" and prev[1] == op[1]:
+                    changed = True
+            if op[0] == "E":
+                tg = op[1]["tags"]
+                d["status_outside_run"] += not inrun
+                if tg is not None and tg[0] == "l":
+                    if prev == tg:
+                        d["same_set_object_again"] += 1
+                        d["same_set_object_again_changed_between"] += changed and cur[tg[1]] != prev_val
+                    elif prev is not None and prev_val == cur[tg[1]]:
+                        d["equal_value_other_object"] += 1
+                prev, changed = tg, False
+                prev_val = None if tg is None else (list(cur[tg[1]]) if tg[0] == "l" else list(tg[1]))
             if op[0] == "E":
                 d["status_calls"] += 1
                 tg = op[1]["tags"]
